@@ -325,7 +325,7 @@ def table_integer(value: int) -> bytes:
         return b'i' + long_uint(value)
     elif -9223372036854775808 <= value <= 9223372036854775807:
         return b'l' + long_long_int(value)
-    raise TypeError('Unsupported numeric value: {:#x}'.format(value))
+    raise TypeError('Unsupported numeric value: {}'.format(hex(value)))
 
 
 def _deprecated_table_integer(value: int) -> bytes:
@@ -345,7 +345,7 @@ def _deprecated_table_integer(value: int) -> bytes:
         return b'I' + long_int(value)
     elif -9223372036854775808 <= value <= 9223372036854775807:
         return b'l' + long_long_int(value)
-    raise TypeError('Unsupported numeric value: {:#x}'.format(value))
+    raise TypeError('Unsupported numeric value: {}'.format(hex(value)))
 
 
 def _string(encoder: struct.Struct, value: str) -> bytes:
